@@ -4018,10 +4018,12 @@ def function_views_model(P, R):
                     bad('__hash__', f'hash() gives {val["__hash__"]!r}')
                 if '__copy__' in val:
                     c = val['__copy__']
-                    if node_of(c) != u or c is h or \
+                    # (the handle itself is accepted as its copy: one
+                    # object, one owner)
+                    if node_of(c) != u or \
                             c.attrs.get('bdd') is not wrapper:
-                        bad('__copy__', 'a copy is not a new handle on '
-                            'the same node of the same manager')
+                        bad('__copy__', 'a copy is not a handle on the '
+                            'same node of the same manager')
     for k, why in sorted(undecided.items()):
         R.undecided('R-ROLE', f'{fq}.{k}', 'views model', why)
     for k, msg in sorted(problems.items()):
